@@ -17,7 +17,7 @@ import threading
 import time
 
 VERIF = "/verif"
-PAR = "/tmp/par"
+PAR = os.environ.get("PARTRIAL_DIR", "/tmp/par")
 
 
 def sh(cmd, cwd=None, timeout=7200):
